@@ -56,7 +56,7 @@ def writer_paths(chk, fx, a, variant):
 
 
 def reader_paths(chk, fx, a):
-    eng = new_engine(chk, fx)
+    eng = new_engine(chk, fx, unroll=True)
     f = a.msg_try_read_validate
     rets = eng.analyse(f["key"], args=[None, strict_options(eng, fx, f)], name="Message::try_read_validate(strict)")
     record_engine(chk, eng, "Message::try_read_validate(strict): %d paths" % len(rets))
